@@ -65,13 +65,13 @@ func GenByProfile(profile string, seed int64, i int, id string) *scen.Scenario {
 	switch profile {
 	case "layout":
 		return scen.GenLayout(r, scen.LayoutCfg{MaxIfaces: 3, MaxMethods: 40, Surround: true, Comments: true, OneLine: true,
-			NotationsIface: true, DoclessIface: 0.3, Imports: true, BuildVariants: true, PkgDoc: true}, id, id)
+			NotationsIface: true, DoclessIface: 0.3, Imports: true, BuildVariants: true, PkgDoc: true, AliasIface: true, MidLine: true}, id, id)
 	case "select":
 		return scen.GenLayout(r, scen.LayoutCfg{MaxIfaces: 3, MaxMethods: 6, Surround: true, Comments: true, OneLine: true, Unmarked: true, Siblings: true,
-			NotationsIface: true, DoclessIface: 0.3, Imports: false, BuildVariants: false, PkgDoc: true, NoIface: true, SameNames: true, EmptyIface: true, LineDirective: true}, id, id)
+			NotationsIface: true, DoclessIface: 0.3, Imports: false, BuildVariants: false, PkgDoc: true, NoIface: true, SameNames: true, EmptyIface: true, LineDirective: true, AliasIface: true, MidLine: true}, id, id)
 	case "carry":
 		return scen.GenLayout(r, scen.LayoutCfg{MaxIfaces: 3, MaxMethods: 8, Surround: true, Comments: true, OneLine: true, Unmarked: true,
-			NotationsIface: true, DoclessIface: 0.3, Imports: true, BuildVariants: true, PkgDoc: true}, id, id)
+			NotationsIface: true, DoclessIface: 0.3, Imports: true, BuildVariants: true, PkgDoc: true, LineDirective: true, AliasIface: true}, id, id)
 	case "match":
 		return scen.GenBroad(r, scen.Match(), id, id)
 	case "notate":
